@@ -94,6 +94,7 @@ type Lemma struct {
 	Concl   []Clause
 	PkgPath string
 	Uses    []string
+	Calls   []string // "x = recv.Method(args)" / "x, y = f(args)": contracts of real functions applied to the lemma's variables
 }
 
 type ContractSet struct {
@@ -111,7 +112,7 @@ var clauseKeywords = map[string]bool{
 	"requires": true, "ensures": true, "assigns": true, "invariant": true, "decreases": true, "mode": true,
 	"pure": true, "trusted": true, "guarded_by": true, "holds": true, "holds_r": true, "may_panic": true,
 	"use": true, "havoc_at": true, "ghost": true, "assume": true, "unroll": true, "vars": true, "hyp": true, "concl": true,
-	"nosafety": true,
+	"nosafety": true, "call": true,
 }
 
 var reBlock = regexp.MustCompile(`(?s)/\*@(.*?)@\*/`)
@@ -326,6 +327,11 @@ func (cs *ContractSet) parseFile(path, pkgPath string) error {
 					return fail(fmt.Errorf("const must be an integer literal"))
 				}
 				cs.Consts[pkgPath+"#"+name] = iv.Val
+			case "call":
+				if curLem == nil {
+					return fail(fmt.Errorf("call outside lemma"))
+				}
+				curLem.Calls = append(curLem.Calls, rc.text)
 			case "vars":
 				if curLem == nil {
 					return fail(fmt.Errorf("vars outside lemma"))
